@@ -311,6 +311,9 @@ pub struct World {
 
 pub fn new_entry_payload(id: u64, size: u32) -> Vec<u8> {
     let size = size as usize;
+    if size == 0 {
+        return Vec::new(); // a genuinely empty payload (never refused for size)
+    }
     let mut v = Vec::with_capacity(size.max(8));
     v.extend_from_slice(&id.to_le_bytes());
     while v.len() < size {
@@ -990,6 +993,9 @@ impl World {
             }
         }
         if done.is_empty() {
+            if !defer {
+                return self.notify(n); // a postponed notification is not postponed beyond the next one
+            }
             return Ok(());
         }
         let number = done.last().unwrap().number;
@@ -1156,7 +1162,7 @@ impl World {
                 Some(x) if x.raw.is_some() => x,
                 _ => return Ok(()),
             };
-            if node.disk.wq.is_empty() && node.outstanding.is_empty() {
+            if node.disk.wq.is_empty() && node.outstanding.is_empty() && node.pending_notify.is_none() {
                 return Ok(());
             }
             let k = node.disk.fsync(count as usize);
